@@ -72,6 +72,12 @@ LabDi = _cls("LabDi", define_as=LabD ** -1, ref_unit_symbol="ldi", ref_unit_name
 LDI = LabDi.ref_unit
 LDI_M = LabDi.derive_unit_from(LD_M, symbol="pmld")
 
+# base, quantum 1 (int); a term-defined unit may have a scale below the quantum
+LabE = _cls("LabE", ref_unit_symbol="le", ref_unit_name="lab-e", quantum=1)
+LE = LabE.ref_unit
+LE_8 = LabE.new_unit("ele", "eighth", Term(((Fr(1, 8), 1), (LE, 1))))
+LE_D = LabE.new_unit("dle", "dozen", 12 * LE)
+
 # symbol -> (type name, scale in reference units)
 UNITS = {
     "la": ("LabA", Fr(1)), "kla": ("LabA", Fr(1000)), "hla": ("LabA", Fr(2, 3)), "tla": ("LabA", Fr(7, 3)),
@@ -85,12 +91,13 @@ UNITS = {
     "lcd": ("LabCD", Fr(1)), "klc/hld": ("LabCD", Fr(1000, 3600)), "tlcd": ("LabCD", Fr(254, 10000) / 60),
     LAD.symbol: ("LabAD", Fr(1)), LAD_K.symbol: ("LabAD", Fr(1000, 3600)),
     "ldi": ("LabDi", Fr(1)), "pmld": ("LabDi", Fr(1, 60)),
+    "le": ("LabE", Fr(1)), "ele": ("LabE", Fr(1, 8)), "dle": ("LabE", Fr(12)),
 }
-QUANTUM = {"LabA": Fr(1, 3), "LabB": Fr(5, 100), "LabCC": Fr(1, 1024), "LabCD": Fr(7), "LabDi": Fr(1, 4)}
+QUANTUM = {"LabA": Fr(1, 3), "LabB": Fr(5, 100), "LabCC": Fr(1, 1024), "LabCD": Fr(7), "LabDi": Fr(1, 4), "LabE": Fr(1)}
 DIMS = {"LabA": {"LabA": 1}, "LabB": {"LabB": 1}, "LabC": {"LabC": 1}, "LabD": {"LabD": 1},
-        "LabCC": {"LabC": 2}, "LabCD": {"LabC": 1, "LabD": -1}, "LabAD": {"LabA": 1, "LabD": -1}, "LabDi": {"LabD": -1}}
+        "LabCC": {"LabC": 2}, "LabCD": {"LabC": 1, "LabD": -1}, "LabAD": {"LabA": 1, "LabD": -1}, "LabDi": {"LabD": -1}, "LabE": {"LabE": 1}}
 CLASSES = {"LabA": LabA, "LabB": LabB, "LabC": LabC, "LabD": LabD, "LabCC": LabCC, "LabCD": LabCD,
-           "LabAD": LabAD, "LabDi": LabDi}
+           "LabAD": LabAD, "LabDi": LabDi, "LabE": LabE}
 
 
 def units_of(t):
